@@ -243,7 +243,7 @@ def sysIdent (name ver : Str) : Str := "sys:".toList ++ name ++ "@".toList ++ ve
 /-- `dependencies.find_external_dependency` as the harness stubs it -/
 def findExternal (w : World) (wanted : List Str) (name : Str) : Option Dep :=
   match alookup name w.system with
-  | some v => if wanted.isEmpty || sat v wanted then some { ident := sysIdent name v, found := true, version := v } else none
+  | some v => if checkVersion sat wanted v then some { ident := sysIdent name v, found := true, version := v } else none
   | none => none
 
 def cachePut (c : List (Str × Dep)) (name : Str) (d : Dep) : List (Str × Dep) :=
